@@ -59,7 +59,11 @@ fn triples_describe(tr: &[ParsedTriple], buf: &[u8], t: &T) -> Result<(), String
 }
 
 pub fn check_input(a: &mut Allocator, s: &[u8], acc: &mut Acc, full_hash: bool) {
-    let canon = || format!("bytes {}", hx(s));
+    check_input_sized(a, s, acc, full_hash, 4096 + 256 * s.len() as u64)
+}
+
+pub fn check_input_sized(a: &mut Allocator, s: &[u8], acc: &mut Acc, full_hash: bool, bound: u64) {
+    let canon = || if s.len() <= 64 { format!("bytes {}", hx(s)) } else { format!("bytes {}.. ({} bytes, fnv {:016x})", hx(&s[..16]), s.len(), fnv(s)) };
     let reference = tree::deser(s);
     // 1. node_from_bytes (via stream to observe the cursor)
     let cp = a.checkpoint();
@@ -71,6 +75,19 @@ pub fn check_input(a: &mut Allocator, s: &[u8], acc: &mut Acc, full_hash: bool) 
     let mut c2 = Cursor::new(s);
     let r2 = parse_triples(&mut c2, true);
     let p2 = c2.position();
+    // 2b. parse_triples without hashes (a separate skip path): must agree with the hashing run
+    let mut c2b = Cursor::new(s);
+    let r2b = parse_triples(&mut c2b, false);
+    let p2b = c2b.position();
+    match (&r2, &r2b) {
+        (Ok((t1, _)), Ok((t2, h2))) => {
+            if t1 != t2 || h2.is_some() || p2 != p2b {
+                acc.violation(canon(), "parse_triples(hashes=false) returns different triples / cursor than parse_triples(hashes=true)".into());
+            }
+        }
+        (Err(_), Err(_)) => {}
+        _ => acc.violation(canon(), format!("parse_triples acceptance depends on calculate_tree_hashes: true -> {:?}, false -> {:?}", r2.as_ref().map(|_| p2).map_err(|e| e.to_string()), r2b.as_ref().map(|_| p2b).map_err(|e| e.to_string()))),
+    }
     // 3. tree_hash_from_stream
     let mut c3 = Cursor::new(s);
     let r3 = tree_hash_from_stream(&mut c3);
@@ -78,7 +95,6 @@ pub fn check_input(a: &mut Allocator, s: &[u8], acc: &mut Acc, full_hash: bool) 
     let canonical = is_canonical_serialization(s);
     let (bytes, maxreq) = allocprobe::read();
     // over-allocation oracle: bounded by a linear function of the input length
-    let bound = 4096 + 256 * s.len() as u64;
     if bytes > bound || maxreq > bound {
         acc.violation(canon(), format!("decoders requested {bytes} bytes (largest request {maxreq}) for a {}-byte input (bound {bound})", s.len()));
     }
@@ -254,6 +270,55 @@ pub fn run(ctx: &Ctx) -> Report {
         }
     }
     rep.evaluations += acc.get("size_probes");
+    rep.absorb(acc);
+    // space 6: every length-prefix class x boundary lengths with the FULL payload present, in the
+    // minimal and in every over-long prefix form (canonicity must be decided by the prefix length)
+    let mut acc = Acc::default();
+    {
+        let mut a = Allocator::new();
+        let kmax = ctx.pick(21u32, 28);
+        let mut lens: Vec<u64> = vec![0, 1, 2, 3];
+        for k in 2..=kmax {
+            lens.extend([(1u64 << k) - 1, 1u64 << k, (1u64 << k) + 1]);
+        }
+        lens.sort();
+        lens.dedup();
+        for n in lens {
+            if n > (1u64 << kmax) {
+                continue;
+            }
+            for l in 1..=6usize {
+                // value bits available in an l-byte prefix: 7-l in the first byte + 8 per further byte
+                let bits = (7 - l) + 8 * (l - 1);
+                if n >= (1u64 << bits) {
+                    continue;
+                }
+                let mut s: Vec<u8> = vec![0u8; l];
+                for i in 0..l {
+                    s[l - 1 - i] = (n >> (8 * i)) as u8;
+                }
+                s[0] |= (0xffu16 << (8 - l)) as u8;
+                for first in [0x41u8, 0x80] {
+                    let mut inp = s.clone();
+                    if n > 0 {
+                        inp.push(first);
+                        inp.extend(std::iter::repeat(0x42).take(n as usize - 1));
+                    }
+                    check_input_sized(&mut a, &inp, &mut acc, n <= 4096, 4096 + 8 * inp.len() as u64);
+                    acc.inc("prefix_class_cases");
+                    // and nested as the left child of a pair
+                    if n <= (1 << 16) {
+                        let mut w = vec![0xff];
+                        w.extend(&inp);
+                        w.push(0x80);
+                        check_input_sized(&mut a, &w, &mut acc, false, 4096 + 8 * w.len() as u64);
+                        acc.inc("prefix_class_cases");
+                    }
+                }
+            }
+        }
+    }
+    rep.evaluations += acc.get("prefix_class_cases");
     rep.absorb(acc);
 
     rep.nontrivial = rep.acc.get("accepted_by_all");
